@@ -6,6 +6,7 @@ CFG = dict(
         "Inst.gen_collectable_spec: gc_cycle's regenerated test deletes a chunk only when its reference count is 0 (and, gen_collectable_age, only when created < now - min_age)",
         "Inst.gen_rdec_spec / gen_rinc_spec: decrement_chunk_refs computes refs-1 floored at 0, increment_chunk_refs refs+1",
         "Inst.gen_fgc_spec / gen_rep_spec: full_gc and integrity::repair scan the records unfinished writers keep of their chunk keys",
+        "Inst.gen_locked_spec: store_chunk, the publish step of finish, delete_artifact, gc_cycle's per-chunk test-and-delete, full_gc and repair each hold chunk_lock() over their read-modify-write of chunk records",
     ],
     crate="nvh_c19",
     header=H + "From NV.C19 Require Import Model Run.\nOpen Scope N_scope.",
@@ -20,10 +21,10 @@ CFG = dict(
     assumptions=[
         "writers are eventually finished or stay open: dropping a BlobWriter without finish() (its chunks keep their counts until full_gc/repair) is not in the op alphabet",
         "gc_cycle's batch (first batch_size keys of a scan) is an arbitrary list of examined keys in the theorems; the correspondence runs use a batch larger than the store",
-        "the theorems are about sequential programs; concurrent schedules are only stress-tested (the reference-count updates are unlocked read-modify-writes on stored values)",
+        "schedules: the theorems quantify over all interleavings of client programs whose steps are atomic; that the implementation's steps are atomic rests on the per-run lock obligation (Inst.gen_locked_spec, syntactic: the lock guard is the first statement of each critical section) and on std::sync::Mutex; reads (get/verify) are not under the lock and are only claimed at quiescence / for artifacts not being deleted concurrently",
     ],
 )
 MANIFEST = dict(
     text="Chunker round trip (all sizes, all chunk sizes > 0), reads-return-the-bytes-written for every program of put/stream/delete/gc/full_gc/verify/repair (refinement of a byte-string specification; any partition of a stream into writes), the reference-count invariant, delete-leaves-others, collectors never touch a listed chunk, delete-all + full_gc leaves nothing, verify reports missing/altered chunks are Coq theorems over the blob-store model with SHA-256 an arbitrary function (collision-or form over the chunk contents stored in the run); gc/refcount decision expressions and the in-flight-writer scan are regenerated from the Rust sources on every run and their obligations re-proved; the model is compared step by step with the real async BlobStore (chunk table, artifact records, every read and verify after every step), plus verify-under-damage cases and a concurrent stress with quiescent verdicts.",
-    note="Trusted: Coq kernel, rs2v.py for the listed expressions, harness + driver. Modelled not verified: SHA-256 (arbitrary function), TensorStore as association list, logical clock, uuid ids as counter. Sequential theorems only; concurrency is stress-tested.",
+    note="Trusted: Coq kernel, rs2v.py for the listed expressions, harness + driver. Modelled not verified: SHA-256 (arbitrary function), TensorStore as association list, logical clock, uuid ids as counter. Concurrency: all schedules of atomic steps (lock obligation re-checked per run) + barrier/stress runs with quiescent verdicts.",
 )
